@@ -34,6 +34,8 @@ import IvpModel.Proofs.ScaleDop853
 import IvpModel.Proofs.ScaleRk23
 import IvpModel.Proofs.ScaleRk4
 import IvpModel.Proofs.DupDopri5
+import IvpModel.Proofs.DupRk23
+import IvpModel.Proofs.DupRk4
 
 noncomputable section
 variable {K : Type} [Field K] [LinearOrder K] [IsStrictOrderedRing K] [SqrtPow K]
@@ -293,6 +295,22 @@ theorem c13_copies_dopri5_whole_run {σ : Type} {n : Nat} (m : Nat) (hm : 0 < m)
         f ob obs0 x0 y0 (some h0) hinit fo hl fuel).map (Ctl.dResult m hn) :=
   Ctl.dopri5Solve_dup m hn hm L xend posneg uround safety scaleMin scaleMax beta hmax nmax nstiff dense atol rtol (Ctl.blockRhs m hn f) f
     (Ctl.blockRhs_dup m hn f) (Ctl.firstCopyObs m hn hm ob) ob (Ctl.firstCopyObs_dup m hn hm ob) obs0 x0 y0 h0 hinit hinit' fo hl fuel
+
+/-- **Whole runs of RK23 on `m ≥ 1` independent copies of a system** (block-diagonal system, stacked tolerances, given first step). -/
+theorem c13_copies_rk23_whole_run {σ : Type} {n : Nat} (m : Nat) (hm : 0 < m) (hn : 0 < n) (P : Ctl.R23Params K n) (f : Ctl.Rhs K n)
+    (ob : Ctl.Obs σ K n) (obs0 : σ) (x0 : K) (y0 : Ctl.Vec K n) (h0 hmaxArg : K) (fuel : Nat) :
+    Ctl.rk23Solve (Ctl.dP23 m hn P) (Ctl.blockRhs m hn f) (Ctl.firstCopyObs m hn hm ob) obs0 x0 (Ctl.dupV m hn y0) (some h0) hmaxArg fuel
+      = (Ctl.rk23Solve P f ob obs0 x0 y0 (some h0) hmaxArg fuel).map (Ctl.dResult m hn) :=
+  Ctl.rk23Solve_dup m hn hm P (Ctl.blockRhs m hn f) f (Ctl.blockRhs_dup m hn f) (Ctl.firstCopyObs m hn hm ob) ob
+    (Ctl.firstCopyObs_dup m hn hm ob) obs0 x0 y0 h0 hmaxArg fuel
+
+/-- **Whole runs of RK4 on `m ≥ 1` independent copies of a system.** -/
+theorem c13_copies_rk4_whole_run {σ : Type} {n : Nat} (m : Nat) (hm : 0 < m) (hn : 0 < n) (P : Ctl.R4Params K) (f : Ctl.Rhs K n)
+    (ob : Ctl.Obs σ K n) (obs0 : σ) (x0 : K) (y0 : Ctl.Vec K n) (h : K) (fuel : Nat) :
+    Ctl.rk4Solve P (Ctl.blockRhs m hn f) (Ctl.firstCopyObs m hn hm ob) obs0 x0 (Ctl.dupV m hn y0) h fuel
+      = (Ctl.rk4Solve P f ob obs0 x0 y0 h fuel).map (Ctl.dResult m hn) :=
+  Ctl.rk4Solve_dup m hn P (Ctl.blockRhs m hn f) f (Ctl.blockRhs_dup m hn f) (Ctl.firstCopyObs m hn hm ob) ob
+    (Ctl.firstCopyObs_dup m hn hm ob) obs0 x0 y0 h fuel
 
 /-- BDF's norm (translated from bdf.rs) is invariant under a common scaling of values and scales, whatever their size -/
 theorem c13_scale_bdf_norm {n : Nat} (c : K) (hc : c ≠ 0) (values scale : Vector K n) (hnz : ∀ i : Fin n, scale[i] ≠ 0) :
